@@ -29,8 +29,9 @@ from harness.common import (VERIF, drain_failures, make_orchestrator, parse_json
 from harness.framework import Check
 
 PROP = "C12"
-FLAGS = ["q_rs_chain_start", "q_ts_console_chain_start", "q_fh_header_relative", "q_col_const_unclamped"]
+FLAGS = ["q_rs_chain_start", "q_ts_arrow_node_start", "q_ts_console_chain_start", "q_fh_header_relative", "q_col_const_unclamped"]
 HEADER = "From TL Require Import Lib.Base Model.LocTypes Gen.LocGen Model.Loc Model.LocRun Actual.LocActual.\n"
+PAT_HEADER = "From TL Require Import Lib.Base Model.LocTypes Gen.LocGen Gen.LocPatGen Model.Loc Model.Embed Model.LocPat.\n"
 CORPUS = VERIF / "corpus" / PROP
 EXT = {"py": ".py", "ts": ".ts", "js": ".js", "rs": ".rs"}
 CM = {"py": "#", "ts": "//", "js": "//", "rs": "//"}
@@ -268,8 +269,31 @@ def s_nesting(seed, i):
                         deco=("same" if plain_header and not (lk == "ts" and fk != "FMethod") else None),
                         split=plain_header or fk == "FArrow", pad_ok=(fk != "FArrowExpr" and not (len(f[0]) > 5))))
     doc = mk_doc(lang, "src/case" + EXT[lang], text.split("\n")[:-1], cons, "nesting")
+    _break_arrow_declarations(doc, r)
     layout(doc, r)
     return {"id": f"nest{i}", "stream": "nesting", "docs": [doc], "config": {"nesting": {"max_nesting_depth": r.choice([1, 1, 2])}}}
+
+
+def _break_arrow_declarations(doc, r):
+    """`const g = () => {`  ->  `const g =` / `  () => {` (what formatters do with long declarations): the quoted name stays on
+    the declaration line, the arrow function node starts on the next line"""
+    did = False
+    for c in sorted([c for c in doc["cons"] if c.get("fkind") == "FArrow" and c.get("pad_ok") and c["key"] not in PLACEHOLDER_NAMES], key=lambda c: -c["hrow"]):
+        row = c["hrow"]
+        line = doc["lines"][row]
+        head = f"const {c['key']} = "
+        j = line.find(head)
+        if r.random() >= 0.35 or j < 0 or j + len(head) != c["hcol"] or any(o is not c and o["hrow"] == row for o in doc["cons"]):
+            continue
+        ind = indent_of(line)
+        doc["lines"][row:row + 1] = [line[:j + len(head) - 1], " " * (ind + 2) + line[j + len(head):]]
+        _shift_rows(doc, row + 1, 1)
+        c["hrow"], c["hcol"], c["nrow"], c["ncol"] = row, j + 6, row + 1, ind + 2
+        c["split"] = False
+        c["deco"] = None
+        did = True
+    if did:
+        doc["tags"].append("arrow-declaration-broken")
 
 
 def _magic_key(v) -> str:
@@ -1167,12 +1191,12 @@ def _run_shard(args):
     return p.returncode, p.stdout, p.stderr
 
 
-def eval_shards_th(workdir: Path, shards, th: Path):
+def eval_shards_th(workdir: Path, shards, th: Path, header: str = None):
     workdir.mkdir(parents=True, exist_ok=True)
     jobs = []
     for i, body in enumerate(shards):
         p = workdir / f"cases_{i}.v"
-        p.write_text(HEADER + "\n" + body + "\n")
+        p.write_text((header or HEADER) + "\n" + body + "\n")
         jobs.append((p, th))
     with ThreadPoolExecutor(max_workers=8) as ex:
         outs = list(ex.map(_run_shard, jobs))
@@ -1187,21 +1211,25 @@ def eval_shards_th(workdir: Path, shards, th: Path):
 JUDGE_CONE = [("Model", "LocTypes.v"), ("Gen", "LocGen.v"), ("Model", "Loc.v"), ("Model", "LocRun.v"), ("Actual", "LocActual.v")]
 
 
-def recorded_layer_theories(dst: Path) -> Path | None:
+PAT_CONE = JUDGE_CONE + [("Gen", "LocPatGen.v"), ("Model", "Embed.v"), ("Model", "LocPat.v")]
+
+
+def recorded_layer_theories(dst: Path, cone=None) -> Path | None:
     """When the current generated layer (or the model on top of it) no longer builds, the judge can still be run with the
-    generated layer recorded for the unchanged tree (coq/Gen.expected/LocGen.v.txt).  This discharges nothing (the run is already
+    generated layer recorded for the unchanged tree (coq/Gen.expected/Loc*Gen.v.txt).  This discharges nothing (the run is already
     failed by the broken obligation); it only lets the search exhibit a concrete input on which the changed implementation
     reports a wrong location."""
-    snap = coq.COQ / "Gen.expected" / "LocGen.v.txt"
-    if not snap.exists():
-        return None
+    cone = cone or JUDGE_CONE
     th = dst / "theories"
     for sub in ("Lib", "Model", "Gen", "Actual"):
         (th / sub).mkdir(parents=True, exist_ok=True)
     for f in (coq.TH / "Lib").glob("*.vo"):
         shutil.copy(f, th / "Lib" / f.name)
-    for sub, name in JUDGE_CONE:
+    for sub, name in cone:
         if sub == "Gen":
+            snap = coq.COQ / "Gen.expected" / (name + ".txt")
+            if not snap.exists():
+                return None
             (th / sub / name).write_text(snap.read_text())
         else:
             shutil.copy(coq.TH / sub / name, th / sub / name)
@@ -1210,6 +1238,113 @@ def recorded_layer_theories(dst: Path) -> Path | None:
         if p.returncode != 0:
             return None
     return th
+
+
+# ====================================================================== pattern-linter models (Model/LocPat.v)
+PAT_RULES = {"lbyl.": "lbyl", "method-property.": "method-property", "stateless-class.": "stateless-class", "collection-pipeline.": "collection-pipeline",
+             "cqs": "cqs", "performance.string-concat-loop": "perf-concat", "performance.regex-in-loop": "perf-regex"}
+PAT_NODE_CLASSES = ("If", "For", "AsyncFor", "While", "FunctionDef", "AsyncFunctionDef", "ClassDef", "With", "Try", "Match", "AugAssign", "Assign", "Call", "Return")
+
+
+def py_nodes_term(text: str):
+    """statement-level nodes of the REAL parse tree (parser oracle) as leaves of Model/Embed.v: class, lineno, col_offset, name"""
+    import ast as pyast
+    try:
+        tree = pyast.parse(text)
+    except (SyntaxError, ValueError):
+        return None
+    out = []
+    for n in pyast.walk(tree):
+        cls = type(n).__name__
+        if cls in PAT_NODE_CLASSES and hasattr(n, "lineno"):
+            out.append(f"PN {cstr(cls)} {n.lineno} {n.col_offset} {cstr(getattr(n, 'name', '') or '')}")
+    return coq.coq_list(out)
+
+
+def pat_name(linter: str, msg: str) -> str:
+    R = msg_regexes()
+    if linter == "method-property":
+        for j in (3, 2, 1, 0):
+            mm = R[f"method-property.{j}"].match(msg)
+            if mm:
+                return mm.group(1)
+    if linter == "stateless-class":
+        mm = R["stateless"].match(msg)
+        if mm:
+            return mm.group(1)
+    if linter == "cqs":
+        mm = R["cqs"].match(msg)
+        if mm:
+            return mm.group(1).split(".")[-1]
+    return ""
+
+
+_ts_parser = None
+
+
+def ts_tree_term(text: str, limit=1500):
+    """image of the tree-sitter tree (TypeScript grammar, as the analyzers use for .ts and .js): named nodes only, text kept for
+    identifier / property_identifier leaves"""
+    global _ts_parser
+    if _ts_parser is None:
+        import tree_sitter_typescript as tst
+        from tree_sitter import Language, Parser
+        _ts_parser = Parser(Language(tst.language_typescript()))
+    root = _ts_parser.parse(text.encode("utf-8")).root_node
+    count = [0]
+
+    def conv(n):
+        count[0] += 1
+        if count[0] > limit:
+            raise OverflowError
+        kids = [conv(c) for c in n.children if c.is_named]
+        txt = n.text.decode("utf-8", "replace") if n.type in ("identifier", "property_identifier") and n.text is not None else ""
+        return f"TN {cstr(n.type)} {n.start_point[0]} {n.start_point[1]} {cstr(txt)} {coq.coq_list(kids)}"
+    try:
+        return conv(root)
+    except (OverflowError, RecursionError):
+        return None
+
+
+def pattern_jobs(cases, impls, markers):
+    """(kind, payload, Coq command) for every file the pattern models can judge"""
+    jobs = []
+    for ci, (case, im) in enumerate(zip(cases, impls)):
+        if "error" in im:
+            continue
+        for doc in case["docs"]:
+            rel = doc["name"]
+            text = im["texts"].get(rel)
+            if text is None:
+                continue
+            vs = [v for v in im["v"] if v[1] == rel]
+            if doc["lang"] == "py":
+                by = {}
+                for rule, _f, line, col, msg in vs:
+                    for pre, linter in PAT_RULES.items():
+                        if (rule.startswith(pre) if pre.endswith(".") else rule == pre) and isinstance(line, int) and isinstance(col, int) and line >= 0 and col >= 0:
+                            by.setdefault(linter, []).append((line, col, pat_name(linter, msg), rule, msg))
+                if by:
+                    nodes = py_nodes_term(text)
+                    if nodes is None:
+                        continue
+                    for linter, reps in by.items():
+                        rs = coq.coq_list([f"({l}, {c}, {cstr(n)})" for l, c, n, _r, _m in reps])
+                        jobs.append(("pat", ci, rel, reps, f"Eval vm_compute in (judge_pat {cstr(linter)} {nodes} {rs})."))
+            elif doc["lang"] in ("ts", "js") and "console" in text:
+                if any(m in "/" + rel for m in markers) or re.search(r"thailint|noqa|eslint-disable|@ts-ignore", text):
+                    continue
+                tree = ts_tree_term(text)
+                if tree is None:
+                    continue
+                mine = []
+                for rule, _f, line, col, msg in vs:
+                    if rule == "improper-logging.print-statement":
+                        mm = msg_regexes()["print.ts"].match(msg)
+                        mine.append((line, col, mm.group(1) if mm else "?"))
+                rs = coq.coq_list([f"({l}, {c}, {cstr(m)})" for l, c, m in mine])
+                jobs.append(("console", ci, rel, mine, f"Eval vm_compute in (judge_console console_default_methods ({tree}) {rs})."))
+    return jobs
 
 
 # ====================================================================== decision
@@ -1274,8 +1409,9 @@ def run(tier: str, seed: int, replay: str | None = None) -> int:
         "columns are compared in bytes (CPython col_offset and tree-sitter columns are UTF-8 byte offsets)",
         "which constructs a linter flags is out of scope here (C01/C02/C03/C16/C17/C19): every reported violation is judged, a missing one is not noticed",
     ]
-    res = chk.build(["theories/Props/C12.v"], ["LocGen"], known_v=["theories/Props/C12Known.v"])
+    res = chk.build(["theories/Props/C12.v"], ["LocGen", "LocPatGen"], known_v=["theories/Props/C12Known.v"])
     judge_built = all(f"theories/{sub}/{name}" in res.compiled for sub, name in JUDGE_CONE)
+    pat_built = judge_built and all(f in res.compiled for f in ("theories/Gen/LocPatGen.v", "theories/Model/LocPat.v"))
     load_known_d(chk)
     scale = chk.budget_scale()
     q = 1 if tier == "quick" else 10
@@ -1455,6 +1591,54 @@ def run(tier: str, seed: int, replay: str | None = None) -> int:
                     chk.violation({"reason": "DRY: the reported line is not the first line of the duplicated block (its code differs from the first line of the "
                                              "other occurrence named in the message)", "violation": [rule, rel, line, col, msg[:300]],
                                    "line_text": mine[line - 1], "other_first_line": other[st - 1], "case": slim(case)})
+    # ---- pattern-linter models: Python detectors report the position of a node of the class read from the source (parse tree = oracle);
+    #      the TypeScript console detector is modelled in full: model output = implementation output
+    try:
+        from translator import items_locpat
+        markers = [x for x in re.findall(r'"([^"]*)"', items_locpat.console_test_markers())]
+        pj = pattern_jobs(cases, impls, markers)
+    except Exception as e:  # noqa: BLE001
+        pj = []
+        chk.broken.append(f"Model:pattern-linter jobs could not be built ({type(e).__name__}: {str(e)[:200]})")
+    if pj:
+        with scratch_dir("tv-c12-pat-") as wd:
+            shards, index = [], []
+            per = 20
+            for s0 in range(0, len(pj), per):
+                chunk = list(range(s0, min(len(pj), s0 + per)))
+                shards.append("\n".join(pj[j][4] for j in chunk))
+                index.append(chunk)
+            try:
+                pth = coq.TH
+                if not pat_built:
+                    pth = recorded_layer_theories(wd / "recorded", PAT_CONE)
+                    if pth is None:
+                        raise RuntimeError("the pattern-linter models do not build and no recorded generated layer is available")
+                    chk.notes.append("the pattern-linter models were evaluated with the recorded generated layer (coq/Gen.expected/LocPatGen.v.txt)")
+                outs = eval_shards_th(wd / "shards", shards, pth, PAT_HEADER)
+                for chunk, out in zip(index, outs):
+                    if len(out) != len(chunk):
+                        raise RuntimeError(f"expected {len(chunk)} results, got {len(out)}")
+                    for j, bits in zip(chunk, out):
+                        kind, ci, rel, reps, _cmd = pj[j]
+                        case = cases[ci]
+                        if kind == "pat":
+                            for (l, c, n, rule, msg), ok in zip(reps, bits):
+                                chk.traces_validated += 1
+                                chk.dist("pattern-model:" + rule.split(".")[0])
+                                if not ok:
+                                    chk.violation({"reason": "a pattern-linter violation is not at the position of a node of the class its detector reports on "
+                                                             "(lineno / col_offset of an If / FunctionDef / ClassDef / For node of the parse tree, name matching)",
+                                                   "violation": [rule, rel, l, c, msg[:300]], "case": slim(case)})
+                        else:
+                            chk.traces_validated += 1
+                            chk.dist("console-model:files")
+                            chk.dist("console-model:reports", len(reps))
+                            if not bits[0]:
+                                chk.violation({"reason": "the TypeScript console detector does not report exactly what its proved model (Model/LocPat.v: console_collect) "
+                                                         "computes for the tree-sitter tree of this file", "file": rel, "impl": reps[:8], "case": slim(case)})
+            except RuntimeError as e:
+                chk.broken.append(f"Model:evaluation of the pattern-linter models failed ({str(e)[:400]})")
     # ---- documented multi-line chains, SARIF / JSON views, bookkeeping
     for ci, (case, im) in enumerate(zip(cases, impls)):
         texts = tuple(sorted((d["name"], doc_text(d) if d.get("raw") is None else d["raw"]) for d in case["docs"]))
